@@ -12,6 +12,7 @@ recovery load that must equal the census (C15/3).
 """
 
 import dataclasses
+import decimal
 import gc
 import os
 import weakref
@@ -82,7 +83,7 @@ def make_exc(kind):
 # user class factory
 # ---------------------------------------------------------------------------
 
-VARIANTS = ["plain", "slots", "frozen", "dataclass", "dataclass-frozen", "own-dunders", "inherited-dunders"]
+VARIANTS = ["plain", "slots", "frozen", "dataclass", "dataclass-frozen", "own-dunders", "inherited-dunders", "value-eq"]
 
 
 def make_class(name, variant, rec):
@@ -175,6 +176,11 @@ def make_class(name, variant, rec):
             note_init(self, kw)
             for k, v in kw.items():
                 setattr(self, k, v)
+        if variant == "value-eq":
+            # value semantics: all instances compare equal (a model may legitimately hold several equal objects);
+            # whatever textX does with a model object has to go by identity
+            ns["__eq__"] = lambda self, other: type(other) is type(self)
+            ns["__hash__"] = lambda self: hash(type(self).__name__)
     ns["__init__"] = __init__
     bases = (Base,) if variant == "inherited-dunders" else ()
     c = type(name, bases, ns)
@@ -218,6 +224,7 @@ class Rec:
         self.fault_site_info = None
         self.pos_by_id = {}  # id(obj) -> (file, start, end) taken at parse time
         self.repl_kinds = ["obj"]
+        self.repl_partial = False  # replace only some objects of the rule (chosen by offset), keep their siblings
 
     # -- object identity without strong references
     def ref(self, o):
@@ -314,6 +321,7 @@ class Env:
         self.rec.env = self
         self.rec.replace_rules = set(cfg["replace"])
         self.rec.repl_kinds = cfg.get("repl_kinds") or ["obj"]
+        self.rec.repl_partial = bool(cfg.get("repl_partial"))
         self.sched = Scheduler(ctx, world, len(world.refs) + 2)
         self.classes = [make_class(n, v, self.rec) for n, v in cfg["classes"]]
         kw = dict(textx_tools_support=cfg["tools"], memoization=cfg["memo"])
@@ -360,6 +368,15 @@ class Env:
                 rec.ev("matchproc", rule, str(value))
                 rec.cross("matchproc")
             if rule == "INT":
+                if value == "42" and rec.env.cfg.get("prim_root"):
+                    # the whole model is this number: the processor may turn it into any immutable value
+                    kind = rec.env.cfg.get("prim_root_kind", "int")
+                    if kind == "decimal":
+                        return decimal.Decimal(42)
+                    if kind == "tuple":
+                        return (42, "forty-two")
+                    if kind == "frozenset":
+                        return frozenset([42])
                 return int(value)
             return value
 
@@ -377,7 +394,7 @@ class Env:
             i = rec.ev("objproc", rule, k)
             rec.objprocs.append((i, rule, k, rec.ref(obj), obj if rec.strong else None))
             rec.cross("objproc")
-            if rule in rec.replace_rules and rule != "Model":
+            if rule in rec.replace_rules and rule != "Model" and not (rec.repl_partial and ((k[1] or 0) // 2) % 2):
                 # replacement values include falsy ones (0, "", [], False): only None means "keep the object"
                 kind = rec.repl_kinds[((k[1] or 0) + len(rule)) % len(rec.repl_kinds)]  # a function of the object, not of history
                 r = {"obj": Repl(f"{rule}@{k[0]}:{k[1]}"), "zero": 0, "empty-str": "", "empty-list": [],
@@ -644,6 +661,7 @@ def draw_cfg(t, prop, nfiles):
         "procs": procs,
         "replace": replace,
         "repl_kinds": [t.pick(["obj", "zero", "empty-str", "empty-list", "false"], "repl-kind") for _ in range(3)],
+        "repl_partial": t.chance(1, 2, "replace-only-some"),
         "wrap": t.chance(1, 3, "wrap"),
         "modelproc": t.chance(2, 3, "modelproc"),
         "precb": t.chance(1, 2, "precb"),
@@ -651,6 +669,7 @@ def draw_cfg(t, prop, nfiles):
         "memo": t.chance(1, 5, "memo"),
         "global_repo": t.chance(1, 3, "global-repo"),
         "prim_root": bool(classes) and t.chance(1, 8, "primitive-root-rule"),
+        "prim_root_kind": t.pick(["int", "decimal", "tuple", "frozenset"], "primitive-root-kind"),
     }
 
 
@@ -687,6 +706,11 @@ def run(ctx):
         cfg["prim_root"] = False  # model-loading providers cannot take a primitive root (they need a model object)
         e1 = Env(ctx, "census", w, cfg, strong=True)
         _mirror_resolved(ctx, e1)
+    if cfg["prim_root"] and cfg["prim_root_kind"] != "int" and ("INT" not in cfg["procs"] or cfg["tools"]):
+        # without an INT processor the value stays an int.  With textx_tools_support textX crashes on a root that is an
+        # immutable value but not an int/float/str/bool (it tries to store the position lists on it) - that crash is
+        # no sentence of a claimed property (DESIGN.md section 6, "noticed"), so the combination is not generated
+        cfg["prim_root_kind"] = "int"
     if cfg["prim_root"]:
         # a model that is just a number: the root is an int, no object carries the end of construction
         try:
